@@ -293,7 +293,7 @@ func runC06(c *vf.Ctx) {
 			nsteps := 10 + r.Intn(30)
 			prevKind := "start"
 			for st := 0; st < nsteps && !bad; st++ {
-				kind := []string{"change", "change", "refresh", "refresh", "refresh-cancelled", "refresh-overlap", "refresh-while-miss", "get-miss", "get-negative", "fail-source", "heal-source", "wait", "refresh-overlap-cancelled"}[r.Intn(13)]
+				kind := []string{"change", "change", "refresh", "refresh", "refresh-cancelled", "refresh-overlap", "refresh-while-miss", "get-miss", "get-negative", "fail-source", "heal-source", "wait", "refresh-overlap-cancelled", "refresh-cancelled-late"}[r.Intn(14)]
 				c.DistinctIn("step_bigrams", prevKind, kind)
 				prevKind = kind
 				switch kind {
@@ -358,6 +358,35 @@ func runC06(c *vf.Ctx) {
 					}
 					cancelledSinceOK = true
 					c.Inc("refreshes_cancelled")
+				case "refresh-cancelled-late":
+					// the caller's context ends while the LAST source is answering; that source still delivers its
+					// list. Whether this refresh then reports success or the cancellation, it must not leave behind
+					// anything that keeps a later refresh from showing what the sources report.
+					if ttlMode == "tiny" {
+						time.Sleep(2 * time.Millisecond)
+					}
+					at := nsrc - 1
+					ctx, cancel := context.WithCancel(context.Background())
+					srcs[at].mu.Lock()
+					srcs[at].onFetchAll = func(cx context.Context) error {
+						cancel()
+						return nil
+					}
+					srcs[at].mu.Unlock()
+					lo := time.Now()
+					err := pc.Refresh(ctx)
+					hi := time.Now()
+					srcs[at].mu.Lock()
+					srcs[at].onFetchAll = nil
+					srcs[at].mu.Unlock()
+					cancel()
+					steps = append(steps, fmt.Sprintf("Refresh whose context ends while the last source (%s) answers (it still delivers) -> %v", srcs[at].name, err))
+					c.Inc("refreshes_cancelled_after_the_last_source_answered")
+					if err != nil {
+						cancelledSinceOK = true
+						break
+					}
+					afterRefresh(lo, hi, fmt.Sprintf("step %d refresh cancelled late", st))
 				case "refresh-overlap":
 					if ttlMode == "tiny" {
 						time.Sleep(2 * time.Millisecond)
